@@ -1,1 +1,83 @@
-fn main(){}
+//! weave: mechanical extraction of real items from /repo for single-file Verus runs.
+//!
+//! Input: a JSON plan (argv[1]) naming source files and the items wanted from each, with per-item
+//! options. Output (stdout): JSON with, per item, the printed text (line by line, each line carrying
+//! the source line of its first real token), the rewrite log and any errors. Everything that is not
+//! covered by a stated rewrite rule is printed verbatim from the syn tree of the working-tree file.
+//!
+//! The rules are documented in DESIGN.md section 3.2; each application is logged with its rule id.
+
+mod closures;
+mod matcher;
+mod printer;
+mod rewrite;
+
+use serde_json::{json, Value};
+use std::fs;
+
+fn main() {
+    let args: Vec<String> = std::env::args().collect();
+    if args.len() < 2 {
+        eprintln!("usage: weave plan.json");
+        std::process::exit(2);
+    }
+    let plan: Value = serde_json::from_str(&fs::read_to_string(&args[1]).expect("plan")).expect("plan json");
+    let repo = plan["repo"].as_str().unwrap_or("/repo").to_string();
+    let rules_text = plan["rules"].as_str().unwrap_or("").to_string();
+    let rules = match matcher::parse_rules(&rules_text) {
+        Ok(r) => r,
+        Err(e) => {
+            println!("{}", json!({"fatal": format!("rules: {}", e)}));
+            std::process::exit(2);
+        }
+    };
+    let mut out_files = vec![];
+    for fp in plan["files"].as_array().unwrap() {
+        let path = fp["path"].as_str().unwrap();
+        let full = format!("{}/{}", repo, path);
+        let src = match fs::read_to_string(&full) {
+            Ok(s) => s,
+            Err(e) => {
+                out_files.push(json!({"path": path, "fatal": format!("cannot read {}: {}", full, e)}));
+                continue;
+            }
+        };
+        let file = match syn::parse_file(&src) {
+            Ok(f) => f,
+            Err(e) => {
+                out_files.push(json!({"path": path, "fatal": format!("parse error: {}", e)}));
+                continue;
+            }
+        };
+        let mut items_out = vec![];
+        for ip in fp["items"].as_array().unwrap() {
+            items_out.push(extract_item(&file, ip, &rules, &plan));
+        }
+        // audit: list every fn in the file (path + whether it has unsafe, closures) for the closure check
+        let mut audit = rewrite::Audit::default();
+        syn::visit::Visit::visit_file(&mut audit, &file);
+        out_files.push(json!({"path": path, "items": items_out, "all_fns": audit.fns}));
+    }
+    println!("{}", serde_json::to_string(&json!({"files": out_files})).unwrap());
+}
+
+/// Locates an item by its plan name and prints it after rewriting.
+fn extract_item(file: &syn::File, ip: &Value, rules: &[matcher::Rule], plan: &Value) -> Value {
+    let kind = ip["kind"].as_str().unwrap_or("fn");
+    let name = ip["name"].as_str().unwrap();
+    let opts = &ip["opts"];
+    let r = match kind {
+        "fn" => rewrite::extract_fn(file, name, opts, rules, plan),
+        "struct" | "enum" | "const" | "type" | "macro_expand" => rewrite::extract_other(file, kind, name, opts, rules, plan),
+        _ => Err(format!("unknown item kind {}", kind)),
+    };
+    match r {
+        Ok(mut v) => {
+            v["name"] = json!(name);
+            v["kind"] = json!(kind);
+            v
+        }
+        Err(e) => json!({"name": name, "kind": kind, "error": e}),
+    }
+}
+
